@@ -198,6 +198,12 @@ def run(argv):
                 continue
             steps = [base_steps[0], {"op": "build", "id": "B", "desc": descs[b]}, {"op": "query", "id": "B"}] + base_steps[1:]
             jobs.append((f"edit-{a}-after-{b}", {"steps": steps}, rng.choice(seeds)))
+    # (c2b) a network that was looked at (species listed, duplicates searched by object and by printed form, reactions printed) before
+    #       its first rendering
+    for nm in names:
+        jobs.append((f"looked-at-then-render-{nm}", {"steps": [{"op": "build", "id": "A", "desc": descs[nm]}, {"op": "query", "id": "A"},
+                                                              {"op": "render", "id": "A", "backend": BACKENDS[0], "tag": [nm, "dense"]}]},
+                     rng.choice(seeds)))
     # (c3) a line whose species the network already has (as reactants and as products): it changes how the species are connected,
     #      hence their order; the network was rendered (its species looked at) before the line arrived
     inner = {"upper": (native(78, ["SI", "H2"], ["HCL", "O"]), "naunet"), "elements-only": (native(78, ["CO", "H2"], ["OH", "C"]), "naunet"),
